@@ -250,3 +250,56 @@ package module
 //@   ensures [C06, known F_C06a] doc_nodotdot: result == nil && kind != 2 ==> !HASDOTDOT(elem)
 //@   ensures [C06, known F_C06b] doc_shortname_sound: result == nil && kind != 2 ==> !TILDEDIGITS(elem)
 //@   ensures [C06, known F_C06b] doc_shortname_complete: kind != 2 && ELEMOK(elem, 2) && CHARSOK(elem, 0, kind) && (kind == 0 ==> elem[0] != '.') && !TILDEDIGITS(elem) ==> result == nil
+
+//@ # ====================== escaping (C11) ======================
+//@ # U(s, i): number of upper-case ASCII letters among the first i bytes of s
+//@ spec func U(s string, i int) int decreases i = if i <= 0 then 0 else U(s, i - 1) + (if upper(s[i-1]) then 1 else 0)
+//@ # only ASCII and no '!': what can be escaped
+//@ spec func ESCAPABLE(s string) bool = forall k int :: 0 <= k && k < len(s) ==> s[k] < 128 && s[k] != '!'
+//@ # e is the escape of s: byte i of s sits at position i + U(s,i) of e; an upper-case letter becomes '!' + lower case
+//@ spec func ISESC(s string, e string) bool =
+//@     len(e) == len(s) + U(s, len(s))
+//@     && (forall i int {s[i]} :: 0 <= i && i < len(s) ==>
+//@          (if upper(s[i]) then e[i + U(s, i)] == '!' && e[i + U(s, i) + 1] == s[i] + 32 else e[i + U(s, i)] == s[i]))
+//@ spec func NOUPPER(e string) bool = forall k int :: 0 <= k && k < len(e) ==> !upper(e[k])
+
+//@ lemma U_nonneg(s string, i int)
+//@   ensures 0 <= U(s, i) && (i <= 0 ==> U(s, i) == 0)
+//@   induction i
+//@   trigger U(s, i)
+//@   props C11
+
+//@ lemma U_mono(s string, i int, j int)
+//@   requires 0 <= i && i <= j
+//@   ensures U(s, i) <= U(s, j) && U(s, j) <= U(s, i) + (j - i)
+//@   induction j - i
+//@   uses U_nonneg
+//@   trigger U(s, i), U(s, j)
+//@   props C11
+
+//@ lemma U_zero(s string, n int, i int)
+//@   requires 0 <= i && i < n && U(s, n) == 0
+//@   ensures !upper(s[i]) && U(s, i) == 0
+//@   hint U(s, i + 1)
+//@   uses U_mono U_nonneg
+//@   trigger U(s, n), U(s, i)
+//@   props C11
+
+//@ func escapeString
+//@   ensures [C11] total: (err == nil) == ESCAPABLE(s)
+//@   ensures [C11] is_escape: err == nil ==> ISESC(s, escaped)
+//@   ensures [C11] no_upper: err == nil ==> NOUPPER(escaped)
+//@   loop 0:
+//@     invariant 0 <= @pos && @pos <= len(s)
+//@     invariant forall k int :: 0 <= k && k < @pos ==> s[k] < 128 && s[k] != '!'
+//@     invariant haveUpper == (U(s, @pos) > 0)
+//@     decreases len(s) - @pos
+//@   loop 1:
+//@     invariant 0 <= @pos && @pos <= len(s) && ESCAPABLE(s)
+//@     invariant len(buf) == @pos + U(s, @pos)
+//@     invariant forall k int :: 0 <= k && k < len(buf) ==> 0 <= buf[k] && buf[k] < 128
+//@     invariant forall k int :: 0 <= k && k < len(buf) ==> !upper(buf[k])
+//@     invariant forall i int {s[i]} :: 0 <= i && i < @pos ==> (if upper(s[i]) then buf[i + U(s, i)] == '!' && buf[i + U(s, i) + 1] == s[i] + 32 else buf[i + U(s, i)] == s[i])
+//@     decreases len(s) - @pos
+//@   uses U_mono U_zero U_nonneg
+//@   props C11
